@@ -219,7 +219,12 @@ Check (C19_codecs_all_bounded :
   forallb Sites.codec_bounded DecodeSites.codecs = true).
 Check (C19_third_party_limits :
   Model.YAMUX_DEFAULT_CREDIT = DecodeSites.YAMUX_DEFAULT_CREDIT /\ DecodeSites.SNOW_MAXMSGLEN = 65535 /\
-  WS_MAX_FRAME = 16777216 /\ WS_MAX_MESSAGE = 67108864).
+  WS_MAX_FRAME = 16777216 /\ WS_MAX_MESSAGE = 67108864 /\
+  Protobuf.RECURSION_LIMIT = DecodeSites.PROST_RECURSION_LIMIT).
+Check (C19_maddr_codes_match :
+  forallb (fun c => Sites.mem c DecodeSites.maddr_codes) (map fst proto_table) &&
+  forallb (fun c => Sites.mem c (map fst proto_table)) DecodeSites.maddr_codes &&
+  Nat.eqb (length proto_table) (length DecodeSites.maddr_codes) = true).
 Check (C19_yamux_syn_credit_refuted :
   exists credit, credit < 2 ^ 32 /\ u32_add_checked credit YAMUX_DEFAULT_CREDIT = None /\
     yamux_syn_credit_overflow 2 [0; 1; 0; 1; 0; 0; 0; 1; 255; 255; 255; 255] = true).
